@@ -147,9 +147,16 @@ func (c *vconc) val(t vtok) any {
 	case "nil":
 		return nil
 	case "bool":
+		if c.mode == "zerovals" {
+			return t.V != 1
+		}
 		return t.V == 1
 	case "int":
 		switch c.mode {
+		case "zerovals":
+			if t.V == 1 {
+				return 0
+			}
 		case "big53":
 			return (1 << 53) + t.V // neighbours of 2^53: distinct ints that collapse as float64
 		case "x256":
@@ -168,6 +175,10 @@ func (c *vconc) val(t vtok) any {
 		return t.V
 	case "float":
 		switch c.mode {
+		case "zerovals":
+			if t.V == 2 {
+				return 0.0
+			}
 		case "scale":
 			return math.Ldexp(float64(t.V), int(c.shift)-2)
 		case "extreme":
@@ -185,13 +196,16 @@ func (c *vconc) val(t vtok) any {
 		}
 		return float64(t.V) / 4
 	case "str":
+		if c.mode == "zerovals" {
+			return c.strs[(((t.V-1)%len(c.strs))+len(c.strs))%len(c.strs)] // token 1 is the empty string
+		}
 		return c.strs[((t.V%len(c.strs))+len(c.strs))%len(c.strs)]
 	case "O":
 		if o, ok := c.objs[t.V]; ok {
 			return o
 		}
 		var o at.Object
-		if c.mode == "zeros" {
+		if c.mode == "zeros" || c.mode == "zerovals" {
 			o = at.NewObject() // equal content, distinct identity
 		} else {
 			o = at.NewObject("id", t.V)
@@ -208,7 +222,7 @@ func (c *vconc) val(t vtok) any {
 			return l
 		}
 		var l at.List
-		if c.mode == "zeros" {
+		if c.mode == "zeros" || c.mode == "zerovals" {
 			l = at.NewList()
 		} else {
 			l = at.NewList(t.V)
@@ -315,9 +329,14 @@ type tag struct {
 func checkViews(r *listRec, how int) error {
 	// builds 2, 3 and 5 run on extreme values (ints beyond 2^53, MinInt/MaxInt, infinities); odd builds use re-entrant
 	// callbacks (every callback reads other typed views of the same list while the outer view is running)
+	// build 6 runs on the zero value of every kind ("" 0 0.0 false, empty containers): a view that treats a zero value as
+	// "nothing there" is seen
 	mode := "id"
 	if how == 2 || how == 3 || how == 5 {
 		mode = "extreme"
+	}
+	if how == 6 {
+		mode = "zerovals"
 	}
 	reentrant := how%2 == 1
 	c := newVconc(mode, 0)
@@ -1079,7 +1098,7 @@ func runViewsRecord(family string, r *listRec, seed int64, count *int64) (string
 	}
 	switch family {
 	case "views":
-		for how := 0; how < 6; how++ {
+		for how := 0; how < 7; how++ {
 			how := how
 			if !run(fmt.Sprintf("build=%d", how), func() error { return checkViews(r, how) }) {
 				return failVariant, fail
